@@ -29,4 +29,9 @@ try:
         print(sid, "caught_by", list(caught.keys()))
 finally:
     shutil.rmtree(work, ignore_errors=True)
-json.dump(res, open("/verif/seeded/DETECTION.json", "w"), indent=1)
+try:
+    old = json.load(open("/verif/seeded/DETECTION.json"))
+except Exception:
+    old = {}
+old.update(res)
+json.dump(dict(sorted(old.items())), open("/verif/seeded/DETECTION.json", "w"), indent=1)
